@@ -31,7 +31,53 @@ impl Keys {
     fn keyhash(&mut self, id: u64) -> Ed25519KeyHash { self.get(id).to_public().to_raw_key().hash() }
 }
 
-/// owner kinds: 0 base(key,key) 1 base(key,script) 2 enterprise 3 pointer 4 byron 5 base(script,key) 6 enterprise(script) 7 reward
+fn crc32(data: &[u8]) -> u32 {
+    let mut crc = 0xffff_ffffu32;
+    for b in data { crc ^= *b as u32; for _ in 0..8 { crc = if crc & 1 != 0 { (crc >> 1) ^ 0xedb8_8320 } else { crc >> 1 }; } }
+    !crc
+}
+fn cbor_head(major: u8, n: u64, out: &mut Vec<u8>) {
+    let m = major << 5;
+    if n < 24 { out.push(m | n as u8) } else if n < 256 { out.push(m | 24); out.push(n as u8) }
+    else if n < 65536 { out.push(m | 25); out.extend_from_slice(&(n as u16).to_be_bytes()) }
+    else if n < (1u64 << 32) { out.push(m | 26); out.extend_from_slice(&(n as u32).to_be_bytes()) }
+    else { out.push(m | 27); out.extend_from_slice(&n.to_be_bytes()) }
+}
+/// A Daedalus-style Byron address: attributes carry a derivation-path payload of `dp_len` bytes (and the protocol magic
+/// when given).  The library has no public constructor for this style, so the address is assembled on the wire
+/// ([#6.24(bytes [root, attributes, 0]), crc32]); its root is derived from the key id only (not the SHA3/Blake2b hash of
+/// the spending data, which the harness cannot compute): irrelevant here, sizes depend on the attributes alone.
+fn daedalus_style_address(root_seed: u64, dp_len: usize, magic: Option<u32>) -> Address {
+    let mut root = [0u8; 28];
+    for (i, b) in root.iter_mut().enumerate() { *b = (root_seed.wrapping_mul(0x9E37_79B9_7F4A_7C15).rotate_left((i as u32 * 5) % 64) >> 7) as u8 ^ i as u8; }
+    let mut dp = Vec::new();                          // the payload is itself a CBOR byte string inside the attribute
+    cbor_head(2, dp_len as u64, &mut dp);
+    for i in 0..dp_len { dp.push((root_seed as u8).wrapping_add((i as u8).wrapping_mul(7))); }
+    let mut payload = Vec::new();
+    cbor_head(4, 3, &mut payload);
+    cbor_head(2, 28, &mut payload); payload.extend_from_slice(&root);
+    cbor_head(5, if magic.is_some() { 2 } else { 1 }, &mut payload);
+    cbor_head(0, 1, &mut payload); cbor_head(2, dp.len() as u64, &mut payload); payload.extend_from_slice(&dp);
+    if let Some(m) = magic { let mut mb = Vec::new(); cbor_head(0, m as u64, &mut mb); cbor_head(0, 2, &mut payload); cbor_head(2, mb.len() as u64, &mut payload); payload.extend_from_slice(&mb); }
+    cbor_head(0, 0, &mut payload);
+    let mut addr = Vec::new();
+    cbor_head(4, 2, &mut addr); cbor_head(6, 24, &mut addr); cbor_head(2, payload.len() as u64, &mut addr); addr.extend_from_slice(&payload);
+    cbor_head(0, crc32(&payload) as u64, &mut addr);
+    ByronAddress::from_bytes(addr).expect("hand-built Byron address").to_address()
+}
+/// does this Byron address carry a derivation path (Daedalus style)?  attributes = map whose first key is 1
+fn is_daedalus_style(b: &ByronAddress) -> bool { let a = b.attributes(); a.len() >= 2 && a[0] != 0xa0 && a[1] == 0x01 }
+/// the bootstrap witness of the matching kind, really signed
+fn bootstrap_witness(keys: &mut Keys, hash: &TransactionHash, b: &ByronAddress, pay: u64) -> BootstrapWitness {
+    if is_daedalus_style(b) {
+        let k = LegacyDaedalusPrivateKey::from_bytes(&keys.get(pay).as_bytes()).expect("daedalus key");
+        make_daedalus_bootstrap_witness(hash, b, &k)
+    } else { make_icarus_bootstrap_witness(hash, b, &keys.get(pay)) }
+}
+
+const TESTNET_MAGIC: u32 = 1097911063;
+/// owner kinds: 0 base(key,key) 1 base(key,script) 2 enterprise 3 pointer 4 byron icarus mainnet 5 base(script,key) 6 enterprise(script)
+/// 7 reward 8 byron icarus with protocol magic 9 byron daedalus style (derivation path) 10 byron daedalus style with protocol magic
 fn make_address(keys: &mut Keys, kind: u64, pay: u64, stake: u64) -> Address {
     let net = 1u8;
     let payc = Credential::from_keyhash(&keys.keyhash(pay));
@@ -45,6 +91,9 @@ fn make_address(keys: &mut Keys, kind: u64, pay: u64, stake: u64) -> Address {
         4 => ByronAddress::icarus_from_key(&keys.get(pay).to_public(), MAGIC).to_address(),
         5 => BaseAddress::new(net, &script(pay), &stakec).to_address(),
         6 => EnterpriseAddress::new(net, &script(pay)).to_address(),
+        8 => ByronAddress::icarus_from_key(&keys.get(pay).to_public(), TESTNET_MAGIC).to_address(),
+        9 => daedalus_style_address(pay, [28usize, 24, 30, 40, 60][(stake % 5) as usize], None),
+        10 => daedalus_style_address(pay, [28usize, 22, 33][(stake % 3) as usize], Some(TESTNET_MAGIC)),
         _ => RewardAddress::new(net, &payc).to_address(),
     }
 }
@@ -139,7 +188,7 @@ fn sign(keys: &mut Keys, c: &Case, tx: &Transaction) -> Transaction {
             let h = u.addr.get(0).map(|b| b >> 4).unwrap_or(15);
             if h == 8 {
                 if let Some(b) = ByronAddress::from_address(&Address::from_bytes(u.addr.clone()).unwrap()) {
-                    bs.entry(u.addr.clone()).or_insert_with(|| make_icarus_bootstrap_witness(&hash, &b, &keys.get(u.pay)));
+                    if !bs.contains_key(&u.addr) { let w = bootstrap_witness(keys, &hash, &b, u.pay); bs.insert(u.addr.clone(), w); }
                 }
             } else if h < 8 && h % 2 == 0 {
                 // one signature per distinct payment key hash (bytes 1..29 of the address)
@@ -171,7 +220,7 @@ fn exec(keys: &mut Keys, toks: &[String]) -> String {
     let zero = TransactionHash::from_bytes(vec![0u8; 32]).unwrap();
     for u in &c.us {
         let sz = match Address::from_bytes(u.addr.clone()).ok().and_then(|a| ByronAddress::from_address(&a)) {
-            Some(b) => make_icarus_bootstrap_witness(&zero, &b, &keys.get(u.pay)).to_bytes().len(),
+            Some(b) => bootstrap_witness(keys, &zero, &b, u.pay).to_bytes().len(),
             None => 0,
         };
         bsizes.push_str(&format!(" {}", sz));
@@ -232,11 +281,14 @@ fn gen_cfg(r: &mut Rng) -> Cfg {
 struct Owners { list: Vec<(u64, u64, u64)> }   // (kind, pay id, stake id)
 fn gen_owners(r: &mut Rng) -> Owners {
     let n = match r.below(6) { 0 => 1, 1 => 2, 2 => r.range(2, 5), 3 => r.range(5, 30), _ => r.range(1, 8) };
-    let byron_heavy = r.chance(1, 5);
+    let byron_heavy = r.chance(1, 4);
     let shared = r.chance(1, 3);
     let mut list: Vec<(u64, u64, u64)> = Vec::new();
     for i in 0..n {
-        let kind = if byron_heavy && r.chance(2, 3) { 4 } else { match r.below(12) { 0..=5 => 0, 6 => 1, 7..=8 => 2, 9 => 3, _ => 4 } };
+        // Byron owners of every style: Icarus (empty attributes), Icarus with protocol magic, Daedalus style with a
+        // derivation path of varying length, with and without protocol magic: the bootstrap witness sizes differ
+        let byron = *r.pick(&[4u64, 4, 8, 9, 9, 10]);
+        let kind = if byron_heavy && r.chance(2, 3) { byron } else { match r.below(13) { 0..=5 => 0, 6 => 1, 7..=8 => 2, 9 => 3, _ => byron } };
         // shared payment key with a different stake part (one signature, several addresses)
         let pay = if shared && i > 0 && r.chance(1, 2) { list[r.below(i) as usize].1 } else { 1000 + r.below(1_000_000) };
         let stake = 5000 + r.below(1_000_000);
@@ -322,7 +374,7 @@ fn gen_case(r: &mut Rng, keys: &mut Keys, idx: u64) -> Case {
         us.push(U { txid: r.bytes(32), ix: r.below(4) as u32, kind, pay, stake, addr, coin: r.range(50_000_000, 2_000_000_000), ma: None });
     }
     let tk = r.below(10);
-    let target = make_address(keys, match tk { 0..=5 => 0, 6 => 2, 7 => 4, 8 => 3, _ => 1 }, 77 + r.below(1000), 99 + r.below(1000)).to_bytes();
+    let target = make_address(keys, match tk { 0..=4 => 0, 5 => 9, 6 => 2, 7 => 4, 8 => 3, _ => 1 }, 77 + r.below(1000), 99 + r.below(1000)).to_bytes();
     Case { target, a: cfg.a, b: cfg.b, cpb: cfg.cpb, mvs: cfg.mvs, mts: cfg.mts, us }
 }
 
@@ -358,7 +410,7 @@ fn gen_targeted(r: &mut Rng, keys: &mut Keys, fam: u64) -> Case {
             let distinct = r.chance(1, 2);
             let byron = r.chance(1, 4);
             for i in 0..n {
-                let o = if distinct { (if byron && r.chance(1, 2) { 4 } else { *r.pick(&[0u64, 2, 3]) }, 2000 + i as u64, 7000 + i as u64) } else { owner };
+                let o = if distinct { (if byron && r.chance(1, 2) { *r.pick(&[4u64, 8, 9, 10]) } else { *r.pick(&[0u64, 2, 3]) }, 2000 + i as u64, 7000 + i as u64) } else { owner };
                 us.push(mk(keys, o, i, r.range(1_500_000, 9_000_000), None));
             }
         }
@@ -412,6 +464,51 @@ fn gen_targeted(r: &mut Rng, keys: &mut Keys, fam: u64) -> Case {
                 }
             }
         }
+        8 => {
+            // several distinct Byron owners of different styles (and sometimes Shelley owners) in one transaction, pure-ADA
+            // amounts drawn so that every processing order (largest first) of the styles occurs
+            let k = r.range(2, 5) as usize;
+            let mut kinds: Vec<u64> = (0..k).map(|_| *r.pick(&[4u64, 8, 9, 9, 10, 0, 2])).collect();
+            if !kinds.iter().any(|x| *x == 9 || *x == 10) { kinds[0] = 9; }
+            if !kinds.iter().any(|x| *x == 4) { kinds[k - 1] = 4; }
+            let mut amounts: Vec<u64> = (0..k).map(|i| 2_000_000 + 1_000_000 * i as u64 + r.below(500_000)).collect();
+            for i in (1..k).rev() { let j = r.below(i as u64 + 1) as usize; amounts.swap(i, j); }
+            for i in 0..k {
+                let o = (kinds[i], 3000 + r.below(40), 8000 + r.below(40));
+                us.push(mk(keys, o, i, amounts[i], None));
+                if r.chance(1, 3) { us.push(mk(keys, o, 10 + i, r.range(1_000_000, 9_000_000), None)); }
+            }
+            if r.chance(1, 3) {
+                let pid = r.bytes(28);
+                let o = (*r.pick(&[9u64, 4, 10]), 3100 + r.below(40), 8100);
+                us.push(mk(keys, o, 30, r.range(1_500_000, 4_000_000), Some(vec![(pid, vec![(vec![7, 7], r.range(1, 1000))])])));
+            }
+        }
+        9 => {
+            // 30..50 policies with one asset each, all of the same shape, spread over UTxOs of 2..5 policies; max_value_size is
+            // set ONE BYTE below the intermediate value size of an output with k >= 24 policies (or k assets of one policy):
+            // the value-size test must reject exactly the k-th one (the real value would be one byte too large; no slack:
+            // every asset lives in one UTxO, so its quantity in the output equals its grand total)
+            let np = r.range(30, 50) as usize;
+            let l = *r.pick(&[0usize, 3, 23, 24, 32]);
+            let one_policy = l > 0 && r.chance(1, 4);      // distinct assets of one policy need distinct (non-empty) names
+            let k = r.range(24, np as u64 - 1);
+            let name_sz = l as u64 + if l < 24 { 1 } else { 2 };
+            let head = |n: u64| if n < 24 { 1u64 } else if n < 256 { 2 } else { 3 };
+            cfg.mvs = (if one_policy { 5 + 1 + 1 + 30 + head(k) + k * (name_sz + 1) } else { 5 + 1 + head(k) + k * (30 + 1 + name_sz + 1) } - 1) as u32;
+            let shared_pid = r.bytes(28);
+            let mut i = 0usize; let mut p = 0usize;
+            while p < np {
+                let m = (r.range(2, 5) as usize).min(np - p);
+                let ps: Vec<(Vec<u8>, Vec<(Vec<u8>, u64)>)> = (0..m).map(|j| {
+                    let mut pid = if one_policy { shared_pid.clone() } else { r.bytes(28) }; if !one_policy { pid[0] = (p + j) as u8; }
+                    let mut nm = r.bytes(l); if l > 0 { nm[0] = (p + j) as u8; }
+                    (pid, vec![(nm, r.range(1, 23))]) }).collect();
+                let ps = if one_policy { vec![(shared_pid.clone(), ps.into_iter().map(|x| x.1[0].clone()).collect())] } else { ps };
+                us.push(mk(keys, owner, i, r.range(2_500_000, 4_000_000), Some(ps)));
+                p += m; i += 1;
+            }
+        }
         _ => {
             // barely enough ADA: the top-up UTxOs just cover (or just miss) the shortage
             let pid = r.bytes(28);
@@ -433,7 +530,7 @@ fn gen(dir: &str) {
     let mut out = Out::new(dir);
     let n = if thorough { 12000 } else { 1000 };
     for i in 0..n {
-        let c = if i % 5 < 2 { let fam = r.below(8); gen_targeted(&mut r, &mut keys, fam) } else { gen_case(&mut r, &mut keys, i) };
+        let c = if i % 5 < 2 { let fam = r.below(11); gen_targeted(&mut r, &mut keys, fam) } else { gen_case(&mut r, &mut keys, i) };
         let line = case_line(&c);
         let toks: Vec<String> = line.split_whitespace().map(|s| s.to_string()).collect();
         let res = exec(&mut keys, &toks);
@@ -443,7 +540,7 @@ fn gen(dir: &str) {
 }
 
 fn main() {
-    silence_panics();
+    if std::env::var("C13_DEBUG").is_err() { silence_panics(); }
     let args: Vec<String> = std::env::args().collect();
     let mut keys = Keys::new();
     match args.get(1).map(|s| s.as_str()) {
